@@ -268,7 +268,9 @@ def run_spec(draw):
             for i in range(draw(st.integers(0, 2))):
                 kids.append(node("%s_%d" % (name, i), depth + 1))
         d = {"name": name, "kind": "Strategy", "algos": algos}
-        kids += ["a", "b"][: draw(st.integers(0, 2))]
+        # securities are children too: plain ones (run() is a no-op) or user-defined ones whose run() does something
+        for t in ["a", "b"][: draw(st.integers(0, 2))]:
+            kids.append({"sec": t, "kind": "RunnableSecurity"} if draw(st.booleans()) else t)
         if kids:
             d["children"] = kids
         return d
@@ -289,7 +291,14 @@ def case_run(ctx, spec):
         target.perm["count"] = target.perm.get("count", 0) + (1 if entry else 0)
         return None
 
+    sec_runs = []
+
+    def sec_cb(sec):
+        if sec.root is holder.get("root"):
+            sec_runs.append((sec.root.now, sec.full_name, len(log)))
+
     interp.Probe.registry["c13run"] = cb
+    interp.Probe.registry["secrun"] = sec_cb
     try:
         b = interp.mk_backtest(bt, spec)
         holder["root"] = b.strategy
@@ -298,6 +307,7 @@ def case_run(ctx, spec):
         raise Discard("run raised: %s" % type(e).__name__)
     finally:
         interp.Probe.registry.pop("c13run", None)
+        interp.Probe.registry.pop("secrun", None)
     real_log = [e for e in log if e["real"]]
     # per date: order and multiplicity of node runs (a node 'runs' when its first probe fires with fresh temp)
     names = [m.full_name for m in b.strategy.members if isinstance(m, bt.core.Strategy)]
@@ -336,6 +346,13 @@ def case_run(ctx, spec):
                 raise Violation("parent %s was still running its stack after child %s started on %s" % (p, nm, dt_), signature="run:interleave")
         for nm in order:
             runs_per_node[nm] += 1
+    # every child runs exactly once per run of its parent - user-defined securities included
+    runsecs = [m.full_name for m in b.strategy.members if type(m).__name__ == "RunnableSecurity"]
+    for dt_ in by_date:
+        for nm in runsecs:
+            cnt = sum(1 for d_, n_, _ in sec_runs if d_ == dt_ and n_ == nm)
+            if cnt != 1:
+                raise Violation("child security %s ran %d times on %s (its parent ran once)" % (nm, cnt, dt_), signature="run:security-child")
     n_dates = len(spec["dates"])
     if sorted(by_date) and len(by_date) != n_dates:
         raise Violation("strategy ran on %d dates, data has %d" % (len(by_date), n_dates), signature="run:dates")
